@@ -158,6 +158,14 @@ func checkEncode(fs *gen.FileSpec, labels map[string]int) (string, bool) {
 	if fs.HdrCRC && p.HeaderCRC == 0 && fitmodel.CRC(data[:12]) != 0 {
 		return "14-byte header written with a zero CRC", false
 	}
+	if p.Stream.ProfileVer != uint16(f.Header.ProfileVersion) {
+		return fmt.Sprintf("profile version on the wire is %d, File.Header.ProfileVersion is %d", p.Stream.ProfileVer, f.Header.ProfileVersion), false
+	}
+	if fs.HdrCRC {
+		if herr := f.Header.CheckIntegrity(); herr != nil {
+			return fmt.Sprintf("File.Header.CheckIntegrity() after Encode: %v (header %v)", herr, f.Header), false
+		}
+	}
 	if p.Stream.Proto != fs.Proto {
 		return fmt.Sprintf("protocol version byte %#x, header says %#x", p.Stream.Proto, fs.Proto), false
 	}
